@@ -65,13 +65,17 @@ L0 == [opi |-> 1, role |-> "push", idx |-> 0, num |-> 0, seg2 |-> <<>>, exp |-> 
 H0 == [active |-> {}, done |-> {}, prec |-> {}, pushedBy |-> << >>, poppedBy |-> << >>, bad |-> "", tryBad |-> FALSE,
        overlap |-> [t \in 1..8 |-> FALSE], item |-> [t \in 1..8 |-> 0]]
 
-InitFor(c) ==
-  /\ cfg = c
-  /\ ms = WMInit(1..Len(c.prog),
+MS0(c) == WMInit(1..Len(c.prog),
                  [x \in {<<"idx", 0>>, <<"idx", 1>>} \cup {<<"slot", i>> : i \in 0..c.cap - 1} \cup {<<"val", i>> : i \in 0..c.cap - 1}
                     |-> IF x[1] = "idx" THEN c.base ELSE IF x[1] = "slot" THEN ((c.base \div c.cap) * 2) % VMOD ELSE 0])
-  /\ pc = [t \in 1..Len(c.prog) |-> "idle"]
-  /\ L = [t \in 1..Len(c.prog) |-> L0]
+PC0(c) == [t \in 1..Len(c.prog) |-> "idle"]
+LL0(c) == [t \in 1..Len(c.prog) |-> L0]
+
+InitFor(c) ==
+  /\ cfg = c
+  /\ ms = MS0(c)
+  /\ pc = PC0(c)
+  /\ L = LL0(c)
   /\ H = H0
   /\ ev = NoEv
 
@@ -285,9 +289,15 @@ WFutexRet(t) ==
   /\ Goto(t, "w_reload")
   /\ UNCHANGED <<cfg, ms, L, H>>
 
-\* ... or because the timeout expired (timed waits only): the caller gives up waiting
-WTimeout(t) ==
+\* ... or because the timeout expired (timed waits only): the timer takes the thread off the
+\* wait queue (a later wake no longer counts it), then the caller gives up waiting
+WTimerFire(t) ==
   /\ pc[t] = "w_blocked" /\ L[t].timed
+  /\ ev' = [NoEv EXCEPT !.t = t, !.k = "tick"]
+  /\ Goto(t, "w_timedout")
+  /\ UNCHANGED <<cfg, ms, L, H>>
+WTimeout(t) ==
+  /\ pc[t] = "w_timedout"
   /\ ev' = [NoEv EXCEPT !.t = t, !.k = "fret", !.loc = "slot", !.i = L[t].slot + L[t].i, !.ok = FALSE]
   /\ Goto(t, L[t].wret)
   /\ UNCHANGED <<cfg, ms, L, H>>
@@ -638,7 +648,7 @@ XILoad(t, M(_)) ==
 (***************************************************************************)
 Step(t, M(_)) ==
   \/ Call(t) \/ Ret(t) \/ CbBegin(t) \/ CbMid(t) \/ CbEnd(t)
-  \/ WLoad(t, M) \/ WClk0(t) \/ WCas(t, M) \/ WFutexWait(t) \/ WFutexRet(t) \/ WTimeout(t) \/ WReload(t, M) \/ WClk1(t)
+  \/ WLoad(t, M) \/ WClk0(t) \/ WCas(t, M) \/ WFutexWait(t) \/ WFutexRet(t) \/ WTimerFire(t) \/ WTimeout(t) \/ WReload(t, M) \/ WClk1(t)
   \/ WSleep(t) \/ WSpinLoad(t, M)
   \/ DFaa(t, M) \/ DTLoad(t, M) \/ DTStore(t, M) \/ PPub(t, M) \/ PWake(t)
   \/ TILoad(t, M) \/ TVLoad(t, M) \/ TILoad2(t, M) \/ TCas(t, M) \/ TIStore(t, M)
